@@ -155,7 +155,10 @@ Definition do_op (s : state) (m : wmap) (h : hop) : option (state * wmap * ores)
   | HPut k x t =>
     match spawn s (OpPut k x) with
     | None => None
-    | Some (s0, p) => option_map (fun s' => (s', m, ONone)) (run_until FUEL never (ch t 1) s0 p)
+    | Some (s0, p) =>
+      (* result: what the file named by OutputFile(out) holds when Put has returned *)
+      option_map (fun s' => (s', m, match read_path (st_fs s') (FD (H x)) with Some d => OBytes d | None => ONone end))
+                 (run_until FUEL never (ch t 1) s0 p)
     end
   | HBegin w k x t =>
     match spawn s (OpPut k x) with
@@ -265,9 +268,17 @@ Definition mem_bytes (d : list N) (l : list (list N)) : bool := existsb (bytes_e
 Definition op_key (o : hop) : option (list N) :=
   match o with HGet k | HGetFile k | HGetBytes k => Some k | _ => None end.
 
+(* Put post-condition (what runner.writeCacheReader relies on): when Put has returned nil, the file named by
+   OutputFile(out) holds exactly the stored content *)
+Definition put_post (o : hop) (r : ores) : bool :=
+  match o with
+  | HPut _ x _ => match r with OBytes d => bytes_eqb d x | _ => false end
+  | _ => true
+  end.
+
 Definition obs_sound (before : list hop) (o : hop) (r : ores) : bool :=
   match op_key o with
-  | None => true
+  | None => put_post o r
   | Some k =>
     let ps := puts_before k before in
     match r with
